@@ -44,7 +44,7 @@ func (prop) Budget(tier string) int {
 	if tier == "thorough" {
 		return 500000
 	}
-	return 9000
+	return 20000
 }
 
 func (prop) Sweep(string) []kernel.Scenario { return nil }
@@ -200,6 +200,16 @@ func (prop) Run(t *testing.T, tape *kernel.Tape, sc kernel.Scenario) *kernel.Res
 		case "basic":
 			c.user, a1 = genStr(tape, "user", true, false, false)
 			c.pass, a2 = genStr(tape, "pass", false, false, false)
+			if tape.Bool(4, "credentials-around-48-bytes") {
+				// lengths on both sides of the sizes a fixed scratch buffer might have
+				total := 44 + tape.Choose(9, "total-length")
+				ul := tape.Choose(total+1, "user-length")
+				c.user = strings.Repeat("u", ul)
+				c.pass = strings.Repeat("p", total-ul)
+				if len(c.pass) >= 2 && tape.Bool(2, "multi-byte-last-character") {
+					c.pass = c.pass[:len(c.pass)-2] + "é"
+				}
+			}
 		case "apikey-header", "bearer":
 			c.token, a1 = genStr(tape, "token", false, true, true)
 		default:
